@@ -4,7 +4,7 @@
   that are equal up to repeats give group sets that are entry-wise equal up to repeats (`GRel.addSeq`).
 -/
 import PyGqlModel.Exec
-import PyGqlModel.Props.C04_rep
+import PyGqlModel.Lemmas.C04Rep
 
 set_option linter.unusedSimpArgs false
 set_option linter.unusedVariables false
